@@ -548,6 +548,21 @@ class Run:
                 raise V(['C03'], 'foreign-file-changed',
                         {'path': sb.rel(p),
                          'what': [a[1] != n[1], a[2] != n[2], a[3] != n[3]]})
+        if not committed:
+            # every regular file back with identical bytes and mtime; for
+            # foreign files (anything but the cache file and the previous
+            # build's outputs) this is also C03's "even overwritten foreign
+            # files are back"
+            prev_out = set(prev.outputs) if prev is not None else set()
+            for p, n in sorted(pre.items()):
+                if n[0] == 'f':
+                    a = post.get(p)
+                    if a is None or a[0] != 'f' or a[1] != n[1] or \
+                            a[2] != n[2]:
+                        props = ['C02']
+                        if p != sb.cache and p not in prev_out:
+                            props = ['C02', 'C03']
+                        raise V(props, 'not-restored', {'path': sb.rel(p)})
         for p in sorted(set(exp) | set(post)):
             e, a = exp.get(p), post.get(p)
             if e is None:
@@ -583,14 +598,6 @@ class Run:
                     raise V(['C05'] if committed else ['C02'], 'mtime',
                             {'path': sb.rel(p), 'expected': e[2],
                              'actual': a[2]})
-        if not committed:
-            # every regular file back with identical bytes and mtime
-            for p, n in pre.items():
-                if n[0] == 'f':
-                    a = post.get(p)
-                    if a is None or a[0] != 'f' or a[1] != n[1] or \
-                            a[2] != n[2]:
-                        raise V(['C02'], 'not-restored', {'path': sb.rel(p)})
 
     # ------------------------------------------------------------------
     def check_faulted(self, i, ctx, fault):
